@@ -94,18 +94,21 @@ def run_unit(ck, h, m, rng, quick):
     ck.extra["unit_disagreements"] = ndiff
 
 
-def run_sched(ck, h, m, rng, quick):
-    """the scheduler functions on a real connection with the real ring (sendASDUInternal / sendWaitingASDUs called directly, white box)
-    against their transcription with the literal ring (Cs104/SchedRing.v: send_asdu_internal_r, send_waiting_r), beyond the capacity
-    of the high-priority ring; oracle: a refused response changes nothing, accepted responses go out in issue order, none is lost"""
+def run_sched(ck, h, m, rng, quick, sig="sched-ring"):
+    """the scheduler functions on a real connection with the real rings (sendASDUInternal / sendWaitingASDUs / the release loop of
+    checkSequenceNumber / enqueue / re-arming at the end of a connection called directly, white box) against their transcription with the
+    literal rings (Cs104/SchedRing.v, Cs104/SchedMq.v), beyond the capacity of both rings; oracle: a refused response changes nothing,
+    accepted responses go out in issue order, none is lost; events go out in enqueue order, an acknowledged event is never sent again"""
     scripts = []
-    for i in range(120 if quick else 3000):
+    for i in range(160 if quick else 4000):
         k = rng.choice([1, 2, 3, 5, 12])
         n = rng.choice([1, 1, 2, 2, 3, 5])
+        z = rng.choice([1, 1, 2, 3, 10])
         sizes = [rng.choice([8, 100, 249])] if i % 3 == 0 else [8, 60, 100, 200, 249]
-        lines = ["sch new %d %d" % (k, n)]
+        lines = ["sch new %d %d %d" % (k, n, z)]
         fail_at = rng.range(10, 80) if i % 10 == 9 else -1
         dead = False
+        wev = rng.choice([0, 20, 45])           # share of events
         for j in range(rng.range(8, 90)):
             r = rng.below(100)
             if j == fail_at:
@@ -114,25 +117,30 @@ def run_sched(ck, h, m, rng, quick):
             elif dead:
                 # no acknowledgements on a dead connection (the k-buffer entry of the failed write has no sequence number of its own)
                 lines.append("sch resp %d" % rng.choice(sizes) if r < 60 else "sch drain")
+            elif r < wev:
+                lines.append("sch ev %d" % rng.choice(sizes))
             elif r < 55:
                 lines.append("sch resp %d" % rng.choice(sizes))
             elif r < 75:
                 lines.append("sch ack %d" % rng.range(0, k))
-            elif r < 97:
+            elif r < 95:
                 lines.append("sch drain")
+            elif r < 97 and wev:
+                lines.append("sch rearm")        # the connection ends, the next one starts with an empty k-buffer
             elif r < 99:
                 lines += ["sch ack %d" % k, "sch drain"]
             else:
                 lines.append("sch stop")
         if not dead:
-            for _ in range((n * 26) // k + 3):
+            for _ in range((n * 26) // k + z * 23 + 3):      # one event per scheduling round
                 lines += ["sch ack %d" % k, "sch drain"]
-        scripts.append(("s%d" % i, k, n, lines))
-    rc = runner.run_batch(h, [(s, l) for s, _, _, l in scripts])
-    rm = runner.run_batch(m, [(s, l) for s, _, _, l in scripts]) if m else {}
+        scripts.append(("s%d" % i, k, n, z, lines))
+    rc = runner.run_batch(h, [(s, l) for s, _, _, _, l in scripts])
+    rm = runner.run_batch(m, [(s, l) for s, _, _, _, l in scripts]) if m else {}
     ndiff = 0
     refused = 0
-    for sid, k, n, lines in scripts:
+    nev = 0
+    for sid, k, n, z, lines in scripts:
         ck.evaluations += 1
         o = rc.get(sid, dict(out=[], crash=None))
         if o["crash"]:
@@ -144,52 +152,78 @@ def run_sched(ck, h, m, rng, quick):
             ndiff += 1
             mo = rm[sid]["out"]
             i = next((j for j, (a, b) in enumerate(zip(out, mo)) if a != b), min(len(out), len(mo)))
-            ck.fail("correspondence", "diff:sched-ring", "scheduler-with-ring model (Cs104/SchedRing.v) and implementation differ at output line %d: C=%s model=%s" % (i, out[i:i + 1], mo[i:i + 1]),
-                    {"script": lines, "c": out[max(0, i - 3):i + 2], "model": mo[max(0, i - 3):i + 2], "theorem": "C13_sched_ring_*"})
+            ck.fail("correspondence", "diff:" + sig, "scheduler-with-rings model (Cs104/SchedRing.v, SchedMq.v) and implementation differ at output line %d: C=%s model=%s" % (i, out[i:i + 1], mo[i:i + 1]),
+                    {"script": lines, "c": out[max(0, i - 3):i + 2], "model": mo[max(0, i - 3):i + 2], "theorem": "C13_sched_ring_* / C06_sched_mq_*"})
         # oracle on the C output
         oi, pid, accepted, written, bad, alive, prev = 0, 0, [], [], None, True, None
+        events, kb, acked, phase = set(), [], set(), []
         for li, l in enumerate(lines):
             outs = []
             while oi < len(out):
                 outs.append(out[oi]); oi += 1
-                if out[oi - 1].startswith("sch tx="):
+                if out[oi - 1].startswith("mq n="):
                     break
-            if not outs or not outs[-1].startswith("sch tx="):
-                bad = "no state line for `%s`" % l
+            sl = [x for x in outs if x.startswith("sch tx=")]
+            if not sl or not outs[-1].startswith("mq n="):
+                bad = "no state lines for `%s`" % l
             else:
-                w = outs[-1].split()
+                w = sl[-1].split()
                 tx = [int(x) for x in w[1][3:].split(",") if x not in ("", "u")]
                 st = dict(x.split("=") for x in w[2:4] + w[5:])
+                st["mqn"] = outs[-1].split()[1][2:]
                 t = l.split()
                 if t[1] == "new":
                     pid, accepted, written, alive = 0, [], [], True
+                    events, kb, acked, phase = set(), [], set(), []
                 elif t[1] == "resp":
                     ok = outs[0] == "schresp 1"
                     if ok:
                         accepted.append(pid)
                     else:
                         refused += 1
-                        if tx or (prev and (prev["n"], prev["k"]) != (st["n"], st["k"])):
+                        if tx or (prev and (prev["n"], prev["k"], prev["mqn"]) != (st["n"], st["k"], st["mqn"])):
                             bad = "a response the send call refused changed the connection (written %s, ring %s -> %s entries)" % (tx, prev and prev["n"], st["n"])
                     pid += 1
+                elif t[1] == "ev":
+                    events.add(pid); nev += 1
+                    pid += 1
+                elif t[1] == "ack":
+                    x = min(int(t[2]), len(kb))
+                    acked |= {p for p in kb[:x] if p in events}
+                    kb = kb[x:]
+                elif t[1] == "rearm":
+                    kb, phase = [], []
                 elif t[1] in ("wmode", "stop"):
                     alive = False
-                written += tx
+                kb += tx
+                for p in tx:
+                    if p in events:
+                        if p in acked and not bad:
+                            bad = "event %d was acknowledged and is transmitted again" % p
+                        if phase and p <= phase[-1] and not bad:
+                            bad = "events transmitted out of enqueue order on one connection: %d after %d" % (p, phase[-1])
+                        phase.append(p)
+                    else:
+                        written.append(p)
                 if not bad and written != accepted[:len(written)]:
                     bad = "responses written %s, accepted in the order %s" % (written[-4:], accepted[max(0, len(written) - 4):len(written) + 1])
                 if not bad and alive and int(st["n"]) + len(written) != len(accepted):
                     bad = "%d responses accepted, %d written and %d parked: one was dropped or duplicated" % (len(accepted), len(written), int(st["n"]))
                 prev = st
             if bad:
-                ck.fail("input", "oracle:sched-ring", "scheduler on the real ring (k=%d, N=%d): %s" % (k, n, bad), {"script": lines[:li + 1], "observed": outs})
+                ck.fail("input", "oracle:" + sig, "scheduler on the real rings (k=%d, N=%d, event ring %d): %s" % (k, n, z, bad), {"script": lines[:li + 1], "observed": outs})
                 break
         if not bad and alive and len(written) != len(accepted):
-            ck.fail("input", "oracle:sched-ring", "scheduler on the real ring (k=%d, N=%d): %d accepted responses never written although the window was acknowledged repeatedly" % (
+            ck.fail("input", "oracle:" + sig, "scheduler on the real rings (k=%d, N=%d): %d accepted responses never written although the window was acknowledged repeatedly" % (
                 k, n, len(accepted) - len(written)), {"script": lines, "observed": out[-4:]})
-        ck.nontriv(("sched", k, n, tuple(lines)))
-    ck.extra["sched_ring_disagreements"] = ndiff
-    ck.count("sched_ring_scripts", len(scripts))
-    ck.count("sched_ring_refusals", refused)
+        elif not bad and alive and prev and prev["mqn"] != "0":
+            ck.fail("input", "oracle:" + sig, "scheduler on the real rings (k=%d, event ring %d): %s event entries still buffered although everything transmitted was acknowledged repeatedly" % (
+                k, z, prev["mqn"]), {"script": lines, "observed": out[-4:]})
+        ck.nontriv(("sched", k, n, z, tuple(lines)))
+    ck.extra[sig.replace("-", "_") + "_disagreements"] = ndiff
+    ck.count(sig.replace("-", "_") + "_scripts", len(scripts))
+    ck.count(sig.replace("-", "_") + "_refusals", refused)
+    ck.count(sig.replace("-", "_") + "_events", nev)
 
 
 def run_trace(ck, rng, quick):
